@@ -73,6 +73,10 @@ def gen_cases(tier, seed):
             k = pairs.index((g, a)) + mixes.index(mix) + STEPS.index(step)
             cases.append(dict(traj=(k + seed) % 4, gyro=g, accel=a, mix=''.join(mix), step=step, wa=wa,
                               sigma=SIGMA_SCALES[(k + seed) % 4], lever=bool((k + seed) % 2)))
+        # trajectories with recording gaps (non-uniform rows), fixes inside the long intervals
+        for (g, a), mix, step, wa in itertools.product(pairs[:3] + pairs[-3:-2], (('P',), ('P', 'V', 'B')), (0.2, 1.0), (True, False)):
+            cases.append(dict(traj=(seed + len(cases)) % 4, gyro=g, accel=a, mix=''.join(mix), step=step, wa=wa, sigma=1.0,
+                              gapped=True))
         # time_step below the trajectory sampling interval (a few model pairs, two mixes)
         for (g, a), mix, wa in itertools.product(pairs[:4], (('P',), ('P', 'V', 'B')), (True, False)):
             cases.append(dict(traj=seed % 3, gyro=g, accel=a, mix=''.join(mix), step=STEP_BELOW_SAMPLING, wa=wa, sigma=1.0))
@@ -81,6 +85,10 @@ def gen_cases(tier, seed):
                                                  mixes, (True, False)):
             cases.append(dict(traj=(seed + 1) % 3, gyro=g, accel=a, mix=''.join(mix), step=STEP_BELOW_SAMPLING, wa=wa,
                               sigma=1.0))
+        for (g, a), mix, step, wa in itertools.product([(x, y) for x in MODEL_CLASSES[::2] for y in MODEL_CLASSES[1::2]], mixes,
+                                                       STEPS, (True, False)):
+            cases.append(dict(traj=(seed + len(cases)) % 4, gyro=g, accel=a, mix=''.join(mix), step=step, wa=wa, sigma=1.0,
+                              gapped=True))
         for g, a, mix, step, wa in itertools.product(MODEL_CLASSES, MODEL_CLASSES, mixes, STEPS, (True, False)):
             k = MODEL_CLASSES.index(g) * len(MODEL_CLASSES) + MODEL_CLASSES.index(a) + mixes.index(mix) + STEPS.index(step)
             for sg in (SIGMA_SCALES[k % 4], SIGMA_SCALES[(k + 2) % 4]):
@@ -175,12 +183,35 @@ def nlerp_rph(a, b, alpha):
     return rot.rph_from_c(c) / D2R
 
 
+def qmean_rph(a, b, alpha):
+    """The weighted chordal (L2) mean proper: the dominant eigenvector of (1-alpha) q0 q0' + alpha q1 q1'.  It lies in the
+    span of q0, q1; in that basis the matrix is [[w0, w0 c], [w1 c, w1]], c = q0.q1."""
+    c0 = rot.c_nb(*(np.asarray(a, dtype=float) * D2R))
+    c1 = rot.c_nb(*(np.asarray(b, dtype=float) * D2R))
+    q0, q1 = rot.quat_from_c(c0), rot.quat_from_c(c1)
+    if q0 @ q1 < 0:
+        q1 = -q1
+    cc = float(q0 @ q1)
+    w0, w1 = 1 - alpha, alpha
+    lam, vec = np.linalg.eig(np.array([[w0, w0 * cc], [w1 * cc, w1]]))
+    a_, b_ = np.real(vec[:, int(np.argmax(np.real(lam)))])
+    q = a_ * q0 + b_ * q1
+    q = q / np.linalg.norm(q)
+    if q @ q0 < 0:
+        q = -q
+    w, x, y, z = q
+    c = np.array([[1 - 2 * (y * y + z * z), 2 * (x * y - w * z), 2 * (x * z + w * y)],
+                  [2 * (x * y + w * z), 1 - 2 * (x * x + z * z), 2 * (y * z - w * x)],
+                  [2 * (x * z - w * y), 2 * (y * z + w * x), 1 - 2 * (x * x + y * y)]])
+    return rot.rph_from_c(c) / D2R
+
+
 INTERPOLANT = 'slerp'
 
 
 def interp_pva(p, q, alpha):
     s = (1 - alpha) * p + alpha * q
-    f = slerp_rph if INTERPOLANT == 'slerp' else nlerp_rph
+    f = {'slerp': slerp_rph, 'nlerp': nlerp_rph, 'qmean': qmean_rph}[INTERPOLANT]
     s[RPH] = f(p[RPH].values, q[RPH].values, alpha)
     return s
 
@@ -281,6 +312,11 @@ def run_case(case):
     wa = case['wa']
     traj_true, traj, inc, noise = data(case['traj'], wa)
     meas = make_measurements(case['mix'], traj_true, noise, case.get('lever', False))
+    if case.get('gapped'):
+        # recording gaps: rows 3, 4, 5 of every 8 are missing from both trajectories (intervals of 0.05 and 0.2 s; the
+        # increments stay complete).  Fixes stamped on the missing rows now lie strictly inside a long interval.
+        keep = [k_ for k_ in range(len(traj_true)) if (k_ % 8) not in (3, 4, 5) or k_ == len(traj_true) - 1]
+        traj_true, traj = traj_true.iloc[keep], traj.iloc[keep]
     sds = SDS * case['sigma']
     gmod, amod = make_model(case['gyro'], 'gyro'), make_model(case['accel'], 'accel')
     res = filters.run_feedforward_filter(traj_true, traj, *sds, gyro_model=gmod, accel_model=amod,
@@ -298,12 +334,17 @@ def run_case(case):
     # between the rows.  The optimal estimate inherits that ambiguity: it widens the tolerance.
     INTERPOLANT = 'nlerp'
     orc2, _ = oracle(case, res, traj_true, traj, inc, meas, sds)
+    INTERPOLANT = 'qmean'
+    orc3, _ = oracle(case, res, traj_true, traj, inc, meas, sds)
     INTERPOLANT = 'slerp'
     amb = {}
-    if orc is not None and orc2 is not None:
+    if orc is not None and orc2 is not None and orc3 is not None:
+        # three shortest-arc interpolants: geodesic, normalised linear blend, weighted chordal mean; on long intervals
+        # (recording gaps) they differ more, and the slack grows with their spread accordingly
         for k_ in ('err_nav', 'sd_nav', 'gyro', 'accel', 'gyro_sd', 'accel_sd'):
-            amb[k_] = 3.0 * np.abs(orc[k_] - orc2[k_])
-        amb['inn'] = 3.0 * max([np.abs(a_ - b_).max() for a_, b_ in zip(orc['inn'], orc2['inn'])] + [0.0])
+            amb[k_] = 3.0 * np.maximum(np.abs(orc[k_] - orc2[k_]), np.abs(orc[k_] - orc3[k_]))
+        amb['inn'] = 3.0 * max([max(np.abs(a_ - b_).max(), np.abs(a_ - c_).max())
+                                for a_, b_, c_ in zip(orc['inn'], orc2['inn'], orc3['inn'])] + [0.0])
     if orc is None:
         v('c11-grid', err)
         return dict(viol=viol, key=repr(sorted(case.items())), nontrivial=True, stats=stats)
